@@ -6,6 +6,7 @@ All exponents are arbitrary integers (not a 7×7 sample).
 -/
 import Rrtk.Core
 import Rrtk.ConstNames
+import Rrtk.Gen.CfgGates
 set_option linter.unusedSectionVars false
 namespace Rrtk.Thm.C01
 open Rrtk
@@ -176,5 +177,27 @@ theorem constants_used_by_code :
 /-- non-vacuity: a mismatch and a match -/
 example : Quantity.add true (⟨1, ⟨1, 0⟩⟩ : Quantity Int) ⟨2, ⟨0, 1⟩⟩ = .error .dim := by rfl
 example : (Quantity.mul true (⟨3, ⟨1, -1⟩⟩ : Quantity Int) ⟨2, ⟨0, 1⟩⟩).unit = ⟨1, 0⟩ := by rfl
+
+
+/-! ### which builds have dimension checking: the cfg gates regenerated from the source -/
+-- (C19: an unchecked build is one where every gate below is off; C01: a checked build is one where every gate is on)
+theorem dim_gates_nonempty : Gen.dimGates ≠ [] := by decide
+/-- Every `cfg` / `cfg_attr` predicate in the source that mentions dimension checking is, in every build (profile ×
+`dim_check_release` × `dim_check_debug` × any other feature × whatever an unparsed sub-predicate evaluates to), exactly the
+documented rule `dim_check_release ∨ (debug_assertions ∧ dim_check_debug)` or exactly its negation: no item is gated by a
+different condition than the rest, so "checking on" and "checking off" are two consistent worlds and the model's single
+switch `chk` is faithful. The table is regenerated from /repo on every run. -/
+theorem dim_gates_uniform : ∀ g ∈ Gen.dimGates,
+    (∀ dbg rel dbgF o unk : Bool, g.2.2.eval dbg (dimEnv rel dbgF o) unk = checkingOn dbg rel dbgF) ∨
+    (∀ dbg rel dbgF o unk : Bool, g.2.2.eval dbg (dimEnv rel dbgF o) unk = !checkingOn dbg rel dbgF) := by decide
+/-- both polarities occur (there are bodies for "on" and bodies for "off") -/
+theorem dim_gates_both_polarities :
+    (∃ g ∈ Gen.dimGates, g.2.2.eval true (dimEnv true true false) false = true) ∧
+    (∃ g ∈ Gen.dimGates, g.2.2.eval true (dimEnv true true false) false = false) := by decide
+/-- the rule itself: the release feature switches checking on in every profile; the debug feature only with debug
+assertions; without either feature checking is off -/
+theorem checkingOn_table :
+    (∀ dbg dbgF, checkingOn dbg true dbgF = true) ∧ (∀ dbgF, checkingOn false false dbgF = false) ∧
+    checkingOn true false true = true ∧ (∀ dbg, checkingOn dbg false false = false) := by decide
 
 end Rrtk.Thm.C01
